@@ -1318,7 +1318,11 @@ func UnserializeScope(data any) (*ScopeSchema, error) {
 	if err != nil {
 		return nil, err
 	}
-	return s.(*ScopeSchema), nil
+	scope := s.(*ScopeSchema)
+	// Link the references, as UnserializeSchema does for the scopes it contains and as NewScopeSchema does for
+	// constructed scopes; an unlinked scope panics on first use. Linking again later is harmless.
+	scope.ApplySelf()
+	return scope, nil
 }
 
 // UnserializeSchema unserializes an entire schema definition from raw data.
